@@ -217,6 +217,11 @@ class CaseOracle:
                                      relation=self._relation(scope, origin), pattern=self._override_pattern()))
             elif e["k"] in ("construct", "fail") and c in self.ctors:
                 users = self._root_users(evs, e) if e["k"] == "construct" else None
+                if users:
+                    # ... plus the components of this pipeline that *would* have consumed it (a value shared by several
+                    # components is built for all of them, also when an early return or a failure keeps some from running)
+                    more = self._potential_users(hid, spec["ctors"][c]["out"] if c in spec["ctors"] else None, e.get("t"))
+                    users = (users | more) if more is not None else None
                 for (t, mode, iid, root, origin) in e.get("in", []):
                     if origin == "?":
                         continue
@@ -300,6 +305,40 @@ class CaseOracle:
                         return None
                     users.add(c)
         return users or None
+
+    def _potential_users(self, hid, out_t, concrete_t):
+        """Root components of the pipeline of `hid` whose dependency closure contains the type; None when the type is
+        also reachable from an error handler or an observer (their inputs resolve in the scope of whichever component
+        failed) or when the request was not routed to a known handler."""
+        m = self.m
+        if hid is None or out_t is None:
+            return None
+        names = {out_t, concrete_t} - {None}
+        base = set(n.split("<")[0] for n in names)
+
+        def mentions(t):
+            return t in names or t.split("<")[0] in base
+        for grp in ("ehs", "obs"):
+            for xid, x in self.spec[grp].items():
+                stack, seen = [t for (t, _m) in x.get("ins", [])], set()
+                while stack:
+                    t = stack.pop()
+                    if t in seen:
+                        continue
+                    seen.add(t)
+                    if mentions(t):
+                        return None
+                    for cid, cc in self.spec["ctors"].items():
+                        if m.ctor_out_matches(cid, t):
+                            stack += [it for (it, _mm) in m.ctor_inputs(cid, t)]
+        out = set()
+        for r in m.chain(hid) + [hid]:
+            if r not in m.reg:
+                continue
+            _, comp = m.comp(r)
+            if any(mentions(t) for (t, _m) in comp.get("ins", [])) or any(mentions(t) for (_cid, t) in m.closure(r)):
+                out.add(r)
+        return out
 
     def _pipeline_visible(self, hid, exp, t):
         m = self.m
